@@ -73,3 +73,21 @@ Theorem C10_bluegreen_refuses_supersession :
   o_br m = br /\ exists s', o_status m = Some s' /\ rp_sub s' = Some u /\ rp_prog s' = rp_prog st.
 Proof. exact Proofs.RolloutBG.bg_refuses_supersession. Qed.
 Print Assumptions C10_bluegreen_refuses_supersession.
+
+(* ---------- blue-green releases with traffic routing (Model/BGFinTR.v: the exit sequences of the blue-green manager) ---------- *)
+From RV Require Model.BGFinTR Corr.BGFinTR Proofs.BGFinTR.
+(* rollback: the reconcile that patches or deletes the BatchRelease -- the new-revision pods go, the workload is handed back --
+   finds the canary route already gone and writes nothing to the network *)
+Theorem C10_bluegreen_rollback_touches_workload_only_after_traffic_is_back : forall t u w br wr n g done o,
+  BGFinTR.finalise_bgtr t u w br RolloutSM.FrRollback wr n g = (done, o) -> Corr.BGFinTR.finv_bg RolloutSM.FrRollback u n = true ->
+  RolloutTR.co_br o <> br -> Corr.RolloutTR.route_gone n = true /\ RolloutTR.co_writes o = [].
+Proof. exact Proofs.BGFinTR.bg_rollback_touches_workload_after_traffic_back. Qed.
+Print Assumptions C10_bluegreen_rollback_touches_workload_only_after_traffic_is_back.
+(* and the cursor leaves RouteTrafficToStable only on a network whose canary route is gone -- at whatever step, routed or not,
+   the rollback (or any other exit) found the release *)
+Theorem C10_bluegreen_cursor_passes_route_to_stable_only_when_the_route_is_gone : forall t u w br r wr n g done o,
+  BGFinTR.finalise_bgtr t u w br r wr n g = (done, o) -> RolloutTR.ts_refs t = true ->
+  RolloutSM.su_fin u = RolloutSM.FtRouteStable -> RolloutSM.su_fin (RolloutTR.co_sub o) <> RolloutSM.FtRouteStable ->
+  TrafficMgr.n_route (TrafficMgr.apply_writes n (RolloutTR.co_writes o)) = TrafficMgr.RNone.
+Proof. exact Proofs.BGFinTR.bg_cursor_passes_route_to_stable_only_when_gone. Qed.
+Print Assumptions C10_bluegreen_cursor_passes_route_to_stable_only_when_the_route_is_gone.
